@@ -17,11 +17,19 @@ Never judged (counted per reason in coverage): whatever the model does not fix -
 MySQL's case-insensitive equality / LIKE, MySQL integer `/`, decimal and float `/ %`, interval / date arithmetic,
 group_concat, locale-dependent case mapping, any text outside the closed rewrite / function lists.
 
-Reported under C02: a signature that fails on PostgreSQL / MySQL and not on SQLite, or fails on SQLite and not on a
-dialect that is decided (the dialects then differ). A signature that fails alike on all decided dialects is C01's finding.
+Reported under C02 (signature = dialect + minimal failing operator skeleton + operand classes, found by C01's
+shrinking-by-projection run on that dialect's engine; failures are matched across engines by (blamed sub-expression,
+row)): a failure of PostgreSQL / MySQL that SQLite does not share, or a failure of SQLite that a decided dialect does
+not share (the dialects then differ). Not reported: a failure shared with SQLite (C01's finding) - including a failure on
+a query SQLite refuses whose signature SQLite shows on other queries; a shared failing sub-expression is replaced by a
+plain operand and the blame moved to the enclosing operator when only the dialect's query disagrees. A statement the
+dialect model rejects (or that does not run at all) while SQLite answers and Python has an answer on every row is a
+violation as well. Any exception Pony raises at translation time is a refusal (allowed).
+Vacuity guards: decided share per dialect (measured 69 % / 62 %), every production judged at least once per dialect
+unless all its queries are undecided for a static, documented reason, row comparisons, queries rendered.
 AGREEMENT WITH LIVE SERVERS IS NOT ESTABLISHED: every PostgreSQL / MySQL verdict is model-based (DM is trusted base).
 """
-import os, time, zlib
+import os, zlib
 from vf import core
 from vf.engines import dm, qx
 from vf.engines.qx import X, var, attr, const, param, call, src, Query, compare, INT, FLOAT, DEC, STR, BOOL, DATE, COND, ms, is_ms
@@ -355,7 +363,7 @@ def run(ctx):
     def chunks(depth, n, size):
         idx = ctx.shuffled(range(n))
         return [(depth, idx[i:i + size]) for i in range(0, n, size)]
-    tasks = chunks(1, len(_EXPRS[1]), 40) + chunks(0, len(_EXPRS[0]), 8)
+    tasks = chunks(1, len(_EXPRS[1]), 20) + chunks(0, len(_EXPRS[0]), 8)
     if not ctx.quick:
         _EXPRS[2] = [E for E in qx.enumerate_exprs(P, 2) if decided_fragment(E)]
         tasks += chunks(2, len(_EXPRS[2]), 400)
@@ -364,8 +372,8 @@ def run(ctx):
     ctx.cov['expressions_depth2_decided_fragment'] = len(_EXPRS.get(2, ()))
     hashes = set()
     workers = min(ctx.nworkers, 16)
-    tasks.append(('extra', 0))
-    results = ctx.pmap(work, ctx.shuffled(tasks), workers=workers)
+    # the forms task builds engines of its own (composite-key schema): first, so that it does not become the tail of the run
+    results = ctx.pmap(work, [('extra', 0)] + ctx.shuffled(tasks), workers=workers)
     for d in results:
         hashes.update(d.pop('hashes'))
         core.absorb(ctx, d)
@@ -398,7 +406,8 @@ def run(ctx):
                       same_failure_as_sqlite=c.get(d + ':same_failure_as_sqlite(C01)', 0) + c.get(d + ':same_signature_as_sqlite(C01)', 0),
                       same_signature_as_sqlite_on_other_queries=c.get(d + ':same_signature_as_sqlite_on_other_queries(C01)', 0),
                       reattributed_above_a_shared_failure=c.get(d + ':reattributed_above_a_shared_failure', 0),
-                      decided_share_percent=int(100.0 * c.get(d + ':judged', 0) / max(1, q - ref)),
+                      # a query whose text does not run under the model gets a verdict (a violation) as well
+                      decided_share_percent=int(100.0 * (c.get(d + ':judged', 0) + c.get(d + ':not_executable', 0)) / max(1, q - ref)),
                       undecided_by_reason={k.split(':', 2)[2]: v for k, v in sorted(c.items()) if k.startswith(d + ':undecided:')},
                       refused_by_dialect_model_by_reason={k.split(':', 2)[2]: v for k, v in sorted(c.items()) if k.startswith(d + ':refused_by_dialect_model:')},
                       productions_judged=len(prods) - len(never), productions_undecided_by_design=bydesign,
